@@ -61,13 +61,18 @@ def parse_error_wellformed(msg, text):
     return any(l.strip() == "^" for l in lines)
 
 
+_HANGS = []
+
+
 def run_decl(text, context, entry="add"):
     """Parse `text` in a fresh library.  -> (class, key, detail)"""
     from shroud import declast
     lib, cls = declgen.make_library()
     ns = cls if context == "class" else lib
     signal.signal(signal.SIGALRM, _alarm)
-    signal.setitimer(signal.ITIMER_REAL, 10)
+    # (once a hang has been established in this shard, later cases get a short leash: they would be reported
+    #  under the same key anyway and the search has to go on behind the finding)
+    signal.setitimer(signal.ITIMER_REAL, 10 if not _HANGS else 2)
     try:
         try:
             if entry == "add":
@@ -82,6 +87,7 @@ def run_decl(text, context, entry="add"):
         finally:
             signal.setitimer(signal.ITIMER_REAL, 0)
     except Hang:
+        _HANGS.append(text)
         return "hang", "hang:" + entry, ""
     except RecursionError as e:
         return classify_exc(e)
@@ -100,11 +106,14 @@ TOK = st.sampled_from(declgen.ALPHABET)
 
 def mutate(draw, toks):
     toks = list(toks)
-    op = draw(st.sampled_from(["delete", "dup", "swap", "replace", "insert"]))
+    op = draw(st.sampled_from(["delete", "dup", "swap", "replace", "insert", "quote"]))
     if not toks:
         return [draw(TOK)], "insert"
     i = draw(st.integers(0, len(toks) - 1))
-    if op == "delete":
+    if op == "quote":
+        # an opening quote that is never closed (a deleted closing quote of a default value), early in the text
+        toks.insert(min(i, 3), draw(st.sampled_from(['"', "'", '"untitled'])))
+    elif op == "delete":
         del toks[i]
     elif op == "dup":
         toks.insert(i, toks[i])
@@ -245,7 +254,7 @@ def ddmin_tokens(c, key):
     """Shrink the token list of a failing case while the same key reproduces."""
     toks = c["text"].split(" ")
     changed = True
-    budget = 400
+    budget = 400 if not key.startswith("hang") else 12
     while changed and budget > 0:
         changed = False
         for i in range(len(toks)):
@@ -320,6 +329,9 @@ ATTR_SITES = {
     "var-member-ptr": "class Class1|int *m_v {A};",
     "var-member": "class Class1|int m_v {A};",
     "struct-member": "struct S1 {{ int *m_v {A}; }};",
+    # an argument list of a fortran_generic variant (fortran.rst): validated by the same code as a declaration's
+    "generic-arg-ptr": "GENERIC|void func(double *arg, int n)|(float *arg {A}, int n)",
+    "generic-arg-scalar": "GENERIC|void func(double arg)|(float arg {A})",
 }
 
 # documented illegal combinations (explicit checks in generate.VerifyAttrs): must be rejected
@@ -354,12 +366,17 @@ ILLEGAL = [
     ("implied-trailing-text", "void func(int *a +rank(1), int n +implied(size(a) 2))"),
     ("dimension-trailing-text", "void func(int *a +dimension(3 4))"),
     ("implied-unbalanced", "void func(int *a +rank(1), int n +implied(size(a)])"),
+    ("generic-illegal-attr-argument", "GENERIC|void func(double arg)|(float arg +readonly)"),
+    ("generic-intent-out-nonpointer", "GENERIC|void func(double arg)|(float arg +intent(out))"),
 ]
 
 
 def yaml_for_decl(site_text, wrappers):
     decls = []
-    if "|" in site_text:
+    if site_text.startswith("GENERIC|"):
+        _g, fdecl, gdecl = site_text.split("|", 2)
+        decls.append({"decl": fdecl, "fortran_generic": [{"decl": gdecl}, {"decl": "(%s)" % fdecl.split("(", 1)[1].rsplit(")", 1)[0]}]})
+    elif "|" in site_text:
         cls, member = site_text.split("|", 1)
         decls.append({"decl": cls, "declarations": [{"decl": member}]})
     else:
